@@ -1104,6 +1104,16 @@ class World:
 
     def blocked(self):
         # the loop has neither connections nor datagrams and would sleep on its condition variable
+        if self.sc.get("noise") and not self.finished:
+            # other traffic keeps the loop awake: a stranger's datagram (not a hello: logged and dropped) per server tick
+            self.advance()
+            if not self.finished:
+                C = self.C
+                hdr = C.PacketHeader.create(False, int(self.real.now // 1024), C.PacketType.APP, C.SeqNum(1), C.SeqNum(0), 0)
+                hdr.length, hdr.count = 4, 1
+                d = hdr.to_bytes() + b"noise-noise-noise-20"
+                self.thread.queue.append((("203.0.113.77", 9), C.PacketHeader.from_bytes(True, d), d))
+            return
         n = 0
         while not self.finished and not self.thread.queue:
             self.advance()
@@ -1173,6 +1183,7 @@ def draw_world(rng, kind):
     else:   # half-open: the hello gets through, nothing after it
         sc["cuts"] = [("c>s", tau_c + 1, 10 ** 9), ("s>c", 0, 10 ** 9)]
         sc["duration"] = max(tt_c, sc["tt_s"]) + 8 * max(tau_c, tau_s) + 400
+        sc["noise"] = True          # the loop only sweeps while something keeps it awake
     return sc
 
 
@@ -1287,6 +1298,9 @@ def monitor_world(ctx, w):
                 if rm != first_s:
                     fail("temp-connection-drop-time", "half-open connection accepted its hello at %d, temp time-out %d: removed at %s, first sweep "
                          "at/after the deadline %s" % (seen[1], sc["tt_s"], rm, first_s))
+                    return
+                if first_s is None:
+                    fail("half-open-scenario-vacuous", "no sweep ran at/after the deadline: the scenario checked nothing")
                     return
                 ctx.count("c:half-open connection removed at temp_connection_timeout")
 
